@@ -105,6 +105,29 @@ pub fn shrink(sc0: &Scenario, target: &Violation, max_tries: u32, max_wall_s: u6
         }
     }
 
+    // rx engine: drop items, simplify delivery
+    if sc.rx.is_some() {
+        let mut i = 0;
+        while i < sc.rx.as_ref().unwrap().items.len() && sc.rx.as_ref().unwrap().items.len() > 1 && budget_left(tried) {
+            let mut c = sc.clone();
+            c.rx.as_mut().unwrap().items.remove(i);
+            if !attempt!(c) {
+                i += 1;
+            }
+        }
+        if sc.rx.as_ref().unwrap().chunk != crate::rx::ChunkMode::Exact {
+            let mut c = sc.clone();
+            c.rx.as_mut().unwrap().chunk = crate::rx::ChunkMode::Exact;
+            attempt!(c);
+        }
+        if sc.rx.as_ref().unwrap().simulator_phy {
+            let mut c = sc.clone();
+            c.rx.as_mut().unwrap().simulator_phy = false;
+            attempt!(c);
+        }
+        return Some(Shrunk { scenario: sc, violation: v, result: res, tried, accepted });
+    }
+
     // 3. structural simplifications, repeated until nothing helps
     loop {
         let before = accepted;
